@@ -35,6 +35,13 @@ def cmd_branches(prog, f, cmd):
             for s in ff:
                 rf |= g.reachable(s)
             out.append((n, rt - rf))
+    # several tests on the same command (a dispatch table expanded into two
+    # chains): the handler region is the union
+    if len(out) > 1:
+        union = set()
+        for n, r in out:
+            union |= r
+        out = [(out[0][0], union)] + out[1:]
     return g, out
 
 
@@ -180,29 +187,87 @@ def r08_1(prog, rep, rid='R08.1'):
                 call_name(c) == 'self.is_canceled' for c in calls_in(n)):
             filt = n
     if filt is None:
-        # loop form: things.remove / continue - not known
-        raise AnalysisError('UNRECOGNISED-IDIOM %s: intake filter on '
-                            'is_canceled not found' % f.where)
-    gen = filt.generators[0]
-    cond = gen.ifs[0] if gen.ifs else None
-    tv = gen.target.id if isinstance(gen.target, ast.Name) else None
-    neg = isinstance(cond, ast.UnaryOp) and isinstance(cond.op, ast.Not) and \
-        isinstance(cond.operand, ast.Call) and \
-        call_name(cond.operand) == 'self.is_canceled' and \
-        cond.operand.args and unparse(cond.operand.args[0]) == tv
-    same = isinstance(filt.elt, ast.Name) and filt.elt.id == tv and \
-        len(gen.ifs) == 1 and len(filt.generators) == 1
-    # assigned back to the list that is worked on
-    asg = [n for n in walk(f.node) if isinstance(n, ast.Assign) and
-           n.value is filt]
-    worked = asg and unparse(asg[0].targets[0]) == unparse(gen.iter)
-    rep.check(neg and same and worked, rid, f, 'work_cb keeps exactly the '
-              'things for which is_canceled() is false', construct=filt,
-              message='the intake filter `%s` does not keep exactly the '
-              'not-canceled things of the bulk' % short(filt, 70),
-              loc=f.loc(filt),
-              history='a cancel request for one task of a bulk: the other '
-              'tasks of the bulk are dropped (or the named one is processed)')
+        # loop form: for x in things: if self.is_canceled(x): continue;
+        #            kept.append(x)   ...   things = kept
+        g = cfg_of(f)
+        smap = I.stmt_node_map(g)
+        okl = None
+        for n in g.nodes:
+            if n.kind != 'test' or not any(
+                    call_name(c) == 'self.is_canceled' for c in calls_in(n.ast)):
+                continue
+            loops = [g.nodes[h] for h in n.loops if g.nodes[h].kind == 'for']
+            if not loops:
+                continue
+            H = loops[-1]
+            tvs = stores_in_target(H.ast.target)
+            call = [c for c in calls_in(n.ast)
+                    if call_name(c) == 'self.is_canceled'][0]
+            if not (call.args and isinstance(call.args[0], ast.Name) and
+                    call.args[0].id in tvs):
+                continue
+            truth = True
+            a = n.ast
+            if isinstance(a, ast.Compare) and len(a.ops) == 1 and \
+                    isinstance(a.comparators[0], ast.Constant):
+                truth = bool(a.comparators[0].value) == isinstance(
+                    a.ops[0], (ast.Is, ast.Eq))
+            keep_lab = 'F' if truth else 'T'
+            apps = [smap[id(c)] for c in calls_in(H.ast)
+                    if isinstance(c.func, ast.Attribute) and
+                    c.func.attr == 'append' and c.args and
+                    isinstance(c.args[0], ast.Name) and c.args[0].id in tvs]
+            start = loop_slice(g, H.id)[0]
+            okl = len(apps) == 1 and (n.id, keep_lab) in guards(
+                g, apps[0].id, start=start) and \
+                len(guards(g, apps[0].id, start=start)) == 1
+            if okl:
+                kept = unparse([c for c in calls_in(H.ast)
+                                if isinstance(c.func, ast.Attribute) and
+                                c.func.attr == 'append'][0].func.value)
+                # the kept list replaces / is what the worker receives
+                src = unparse(H.ast.iter)
+                flows = any(isinstance(x, ast.Assign) and
+                            unparse(x.value) == kept and
+                            unparse(x.targets[0]) == src
+                            for x in walk(f.node)) or any(
+                    kept in [unparse(z) for z in c.args]
+                    for c in calls_in(f.node)
+                    if 'self._workers' in unparse(c.func))
+                okl = flows
+            break
+        if okl is None:
+            raise AnalysisError('UNRECOGNISED-IDIOM %s: intake filter on '
+                                'is_canceled not found' % f.where)
+        rep.check(okl, rid, f, 'work_cb keeps exactly the things for which '
+                  'is_canceled() is false (loop form)', construct='intake-loop',
+                  message='the intake filter loop of work_cb does not keep '
+                  'exactly the not-canceled things of the bulk', loc=f.loc(),
+                  history='a cancel request for one task of a bulk: the other '
+                  'tasks of the bulk are dropped (or the named one is '
+                  'processed)')
+        filt = False
+    if filt is not False:
+        gen = filt.generators[0]
+        cond = gen.ifs[0] if gen.ifs else None
+        tv = gen.target.id if isinstance(gen.target, ast.Name) else None
+        neg = isinstance(cond, ast.UnaryOp) and isinstance(cond.op, ast.Not) and \
+            isinstance(cond.operand, ast.Call) and \
+            call_name(cond.operand) == 'self.is_canceled' and \
+            cond.operand.args and unparse(cond.operand.args[0]) == tv
+        same = isinstance(filt.elt, ast.Name) and filt.elt.id == tv and \
+            len(gen.ifs) == 1 and len(filt.generators) == 1
+        # assigned back to the list that is worked on
+        asg = [n for n in walk(f.node) if isinstance(n, ast.Assign) and
+               n.value is filt]
+        worked = asg and unparse(asg[0].targets[0]) == unparse(gen.iter)
+        rep.check(neg and same and worked, rid, f, 'work_cb keeps exactly the '
+                  'things for which is_canceled() is false', construct=filt,
+                  message='the intake filter `%s` does not keep exactly the '
+                  'not-canceled things of the bulk' % short(filt, 70),
+                  loc=f.loc(filt),
+                  history='a cancel request for one task of a bulk: the other '
+                  'tasks of the bulk are dropped (or the named one is processed)')
 
     # (d) scheduler control_cb: queue hand-over and raptor backlog
     sb = prog.cls(*SBASE)
@@ -230,8 +295,9 @@ def r08_1(prog, rep, rid='R08.1'):
               "arg['uids'] with the _CANCEL flag to the scheduling process "
               "unconditionally", loc=f.loc(),
               history='cancel of a waiting task never reaches the wait pool')
+    back_al0 = I.Aliases(prog, None, {f.name: f}, 'self._raptor_tasks')
     comps = [n for n in walk(f.node) if isinstance(n, ast.ListComp) and
-             '_raptor_tasks' in unparse(n.generators[0].iter)]
+             back_al0.is_rooted_expr(f.name, n.generators[0].iter)]
     for lc in comps:
         gen = lc.generators[0]
         cond = gen.ifs[0] if len(gen.ifs) == 1 else None
@@ -247,28 +313,103 @@ def r08_1(prog, rep, rid='R08.1'):
                   loc=f.loc(lc),
                   history='cancel of task A removes bystander raptor tasks '
                   'from the backlog')
-    # what is removed from the backlog is what is reported canceled
-    rem = [c for c in calls_in(f.node) if isinstance(c.func, ast.Attribute)
-           and c.func.attr == 'remove' and '_raptor_tasks' in
-           unparse(c.func.value) and smap[id(c)].id in region]
-    app = [c for c in calls_in(f.node) if isinstance(c.func, ast.Attribute)
-           and c.func.attr == 'append' and smap[id(c)].id in region and
-           isinstance(c.func.value, ast.Name)]
+    # what is removed from the backlog is what is reported canceled: every
+    # element collected for the CANCELED hand-on comes from the filtered
+    # selection, and every selected element is removed from the backlog
     hands = [c for c in calls_in(f.node) if I.is_handon(c) and
              smap[id(c)].id in region]
-    okr = len(rem) == 1 and len(app) == 1 and len(hands) == 1 and \
-        unparse(rem[0].args[0]) == unparse(app[0].args[0]) and \
-        set(guards(g, smap[id(rem[0])].id)) == \
-        set(guards(g, smap[id(app[0])].id)) and \
-        smap[id(rem[0])].loops == smap[id(app[0])].loops and \
-        unparse(I.handon_thing(hands[0])) == unparse(app[0].func.value) and \
-        I.handon_state(prog, f, hands[0]) == prog.const('states.py',
-                                                        'CANCELED')
-    rep.check(okr, rid, f, 'raptor backlog: removal and collection for the '
-              'CANCELED hand-on go together', construct='sched:raptor-pair',
-              message='in the raptor backlog branch the task removed, the '
-              'task collected and the list handed on as CANCELED do not '
-              'coincide', loc=f.loc(),
+    okr = False
+    why = 'no CANCELED hand-on of a collected list'
+    if len(hands) == 1 and isinstance(I.handon_thing(hands[0]), ast.Name) and \
+            I.handon_state(prog, f, hands[0]) == prog.const('states.py',
+                                                            'CANCELED'):
+        L = I.handon_thing(hands[0]).id
+        # the handed list may be a plain copy of the name it was collected
+        # under (`to_cancel = popped`)
+        Ls = {L}
+        for _ in range(3):
+            for n in walk(f.node):
+                if isinstance(n, ast.Assign) and len(n.targets) == 1 and \
+                        isinstance(n.targets[0], ast.Name) and \
+                        n.targets[0].id in Ls and isinstance(n.value, ast.Name):
+                    Ls.add(n.value.id)
+        sel = set()          # names holding the filtered selection
+        for n in walk(f.node):
+            if isinstance(n, ast.Assign) and n.value in comps and \
+                    isinstance(n.targets[0], ast.Name):
+                sel.add(n.targets[0].id)
+        back_al = I.Aliases(prog, None, {f.name: f}, 'self._raptor_tasks')
+
+        def over_sel(node):
+            """loop variable names of enclosing loops that iterate the
+            selection"""
+            out = set()
+            for h in node.loops:
+                hn = g.nodes[h]
+                if hn.kind == 'for' and isinstance(hn.ast.iter, ast.Name) and \
+                        hn.ast.iter.id in sel:
+                    out |= set(stores_in_target(hn.ast.target))
+            return out
+        collected = removed = False
+        stray = []
+        for cc in calls_in(f.node):
+            if id(cc) not in smap or smap[id(cc)].id not in region:
+                continue
+            n = smap[id(cc)]
+            if isinstance(cc.func, ast.Attribute) and \
+                    unparse(cc.func.value) in Ls:
+                if cc.func.attr == 'extend' and cc.args and \
+                        isinstance(cc.args[0], ast.Name) and \
+                        cc.args[0].id in sel:
+                    collected = True
+                elif cc.func.attr == 'append' and cc.args and \
+                        isinstance(cc.args[0], ast.Name) and \
+                        cc.args[0].id in over_sel(n) and \
+                        not [x for x in guards(g, n.id) if x[0] in
+                             g.loop_body[n.loops[-1]]]:
+                    collected = True
+                elif cc.func.attr in ('append', 'extend', 'insert'):
+                    stray.append(cc)
+            if isinstance(cc.func, ast.Attribute) and \
+                    cc.func.attr == 'remove' and \
+                    back_al.is_rooted_expr(f.name, cc.func.value):
+                if cc.args and isinstance(cc.args[0], ast.Name) and \
+                        cc.args[0].id in over_sel(n) and \
+                        not [x for x in guards(g, n.id) if x[0] in
+                             g.loop_body[n.loops[-1]]]:
+                    removed = True
+                else:
+                    stray.append(cc)
+        for n in walk(f.node):
+            if isinstance(n, ast.AugAssign) and unparse(n.target) in Ls and \
+                    isinstance(n.value, ast.Name) and n.value.id in sel:
+                collected = True
+        any_coll = any(isinstance(cc.func, ast.Attribute) and
+                       unparse(cc.func.value) in Ls and cc.func.attr in
+                       ('append', 'extend') for cc in calls_in(f.node))
+        any_rem = any(isinstance(cc.func, ast.Attribute) and
+                      cc.func.attr in ('remove', 'pop') and
+                      back_al.is_rooted_expr(f.name, cc.func.value)
+                      for cc in calls_in(f.node)) or any(
+            isinstance(x, ast.Delete) and back_al.is_rooted_expr(
+                f.name, x.targets[0]) for x in walk(f.node))
+        if not (collected and removed and not stray) and any_coll and any_rem \
+                and not sel:
+            # collection and removal exist but the selection is not built
+            # the way the recogniser knows (helper, explicit loop, ..)
+            raise AnalysisError('UNRECOGNISED-IDIOM %s: raptor backlog '
+                                'selection/removal in the cancel branch'
+                                % f.where)
+        okr = collected and removed and not stray
+        why = ('selected tasks are %s%s' % (
+            'not all collected for the hand-on' if not collected else
+            'not all removed from the backlog' if not removed else
+            'collected/removed', '; other elements are added/removed too: %s'
+            % [short(x, 40) for x in stray] if stray else ''))
+    rep.check(okr, rid, f, 'raptor backlog: exactly the selected tasks are '
+              'removed and handed on as CANCELED', construct='sched:raptor-pair',
+              message='in the raptor backlog branch of the scheduler cancel '
+              'handler %s' % why, loc=f.loc(),
               history='a backlog task is removed without a final state, or '
               'reported CANCELED and later forwarded to raptor')
 
@@ -593,21 +734,21 @@ def run(prog, rep, tier):
     rep.assumptions = ['uids are unique across tasks',
                        'zmq pubsub delivers the control message to every '
                        'subscribed component']
-    r08_1(prog, rep)
-    r08_3(prog, rep)
-    r08_4(prog, rep)
-    r08_5(prog, rep)
+    rep.attempt(r08_1, prog, rep)
+    rep.attempt(r08_3, prog, rep)
+    rep.attempt(r08_4, prog, rep)
+    rep.attempt(r08_5, prog, rep)
     from .c04 import r04_5
-    r04_5(prog, rep, rid='R04.5')
+    rep.attempt(r04_5, prog, rep, rid='R04.5')
     from .c07 import r07_2
-    r07_2(prog, rep, rid='R07.2')
+    rep.attempt(r07_2, prog, rep, rid='R07.2')
     if tier == 'thorough':
         rep.rule('R08.4s', 'sweep: message key agreement for every command '
                  'handler in the package', minimum=0)
-        r08_4(prog, rep, sweep=True)
+        rep.attempt(r08_4, prog, rep, sweep=True)
         rep.rule('R08.5s', 'sweep: loops which mutate the container they '
                  'iterate, package wide (information)', minimum=0)
-        r08_5(prog, rep, sweep=True)
+        rep.attempt(r08_5, prog, rep, sweep=True)
 
 
 # ------------------------------------------------------------------------------
